@@ -18,11 +18,10 @@ analysed program (noted where it is only so for the analysis):
                                        - `not a < b` is kept: ordering of
                                        unknown types need not be total)
   not not a                        ->  a     (in test position only)
-  x = x + e / x = x - e            ->  x += e / x -= e   (same target path; for
-                                       lists `x = x + e` rebinds instead of
-                                       mutating - the rules treat both as "x
-                                       now also holds e", which is what they
-                                       need)
+  x = x + e / x = x - e            ->  x += e / x -= e   (same target path; `+`
+                                       only when e is a number for sure: for a
+                                       list `x = x + e` re-binds while `x += e`
+                                       mutates the shared object in place)
   if c: ...jump  else: REST        ->  if c: ...jump ; REST     (jump = return,
                                        raise, continue, break)
   a, b = x, y                      ->  a = x ; b = y   (names on the left,
@@ -60,6 +59,21 @@ _MIRROR = {ast.Eq: ast.Eq, ast.NotEq: ast.NotEq, ast.Lt: ast.Gt,
            ast.Gt: ast.Lt, ast.LtE: ast.GtE, ast.GtE: ast.LtE}
 _NEGATE = {ast.Eq: ast.NotEq, ast.NotEq: ast.Eq, ast.In: ast.NotIn,
            ast.NotIn: ast.In, ast.Is: ast.IsNot, ast.IsNot: ast.Is}
+
+
+def _numeric(e):
+    """operand that is a number for sure: `x = x + e` and `x += e` then mean
+    the same (for a list the first re-binds, the second mutates in place)"""
+    if isinstance(e, ast.Constant):
+        return isinstance(e.value, (int, float)) and \
+            not isinstance(e.value, bool)
+    if isinstance(e, ast.Call) and isinstance(e.func, ast.Name) and \
+            e.func.id in ('len', 'int', 'float', 'abs', 'sum'):
+        return True
+    if isinstance(e, ast.BinOp) and isinstance(e.op, (ast.Mult, ast.Div,
+                                                     ast.FloorDiv, ast.Mod)):
+        return True
+    return False
 
 
 def _jumps(body):
@@ -194,7 +208,8 @@ class _Stmt(ast.NodeTransformer):
             if isinstance(t, (ast.Name, ast.Attribute, ast.Subscript)) and \
                     isinstance(v, ast.BinOp) and \
                     isinstance(v.op, (ast.Add, ast.Sub)) and \
-                    _same(_as_load(t), v.left):
+                    _same(_as_load(t), v.left) and (
+                        isinstance(v.op, ast.Sub) or _numeric(v.right)):
                 return _loc(ast.AugAssign(target=t, op=v.op, value=v.right),
                             node)
             if isinstance(v, ast.IfExp) and isinstance(t, (ast.Name,
